@@ -71,6 +71,10 @@ CHECKS["C18"] = dict(level="exploration", engine="component monitor (public B+tr
    technique="runtime differential monitor: generated operation sequences on the real BPlusTree next to a vector kept sorted by the same comparator; close/reopen at arbitrary points; page census at quiescent points",
    text="Held on the generated sequences (grow / shrink / churn phases over skewed key universes of 12..2000 keys, keys of 1 byte .. 5 KB, values of 0 .. 30 KB, both the bytewise and the timestamp key order) counted in the evidence: every insert / overwrite / delete / get / bounded range scan / internal-iterator seek+steps result equals the ordered map; after close + reopen too; at every census no page is reachable twice, outside the file or unaccounted for, the header's free count equals the pages listed in trunk pages, and the leaf chain equals the left-to-right leaf order. Sequences are sampled, not enumerated.",
    note="Trusted: the Comparator objects (shared between tree and model), H7 census walk. Crash consistency of the tree file is not part of this property.")
+CHECKS["C19"] = dict(level="exploration", engine="multi-opener monitor (in-process handles + child processes)", ref="DESIGN.md 3/C19",
+   technique="runtime monitor with a one-variable model (who owns the directory): generated sequences of open / close / drop / commit / process exit / SIGKILL by 3 in-process and 2 child-process openers; every open attempt's outcome compared with the model; directory snapshot before/after refused attempts",
+   text="Held on the generated sequences counted in the evidence: an open succeeds exactly when no live instance holds the directory (same process and across processes), a refused open leaves every file of the directory byte-identical, after close / drop / process exit / SIGKILL of the owner the next open succeeds (after a drop: within a bounded retry, the release runs in a background task) and sees every commit acknowledged to earlier owners. Orders are sampled.",
+   note="Trusted: child-process driver over pipes; advisory locks of the test machine's file system (tmpfs under /dev/shm). Background flush / compaction is off in all openers so that an idle owner leaves the directory unchanged.")
 order = ["C01","C02","C03","C04","C05","C06","C07","C08","C09","C10","C11","C12","C13","C14","C15","C16","C17","C18","C19"]
 checks=[]
 for pid in order:
